@@ -380,7 +380,7 @@ func runPrune(t *testing.T, run *emit.Run, n int) {
 		dupRep := map[string]any{"kind": "prune", "snapshot": snItems, "submissions(val,type,bytes)": subItems, "stored_evidence": evItems}
 		for v, c := range entries {
 			if c > 1 {
-				run.Violate("C13:evidence-entry-duplicated", fmt.Sprintf("validator %d has %d evidence entries on one message after re-sending: its shares are counted %d times", v, c, c), dupRep)
+				violate(run, "C13:evidence-entry-duplicated", fmt.Sprintf("validator %d has %d evidence entries on one message after re-sending: its shares are counted %d times", v, c, c), dupRep)
 			}
 		}
 
@@ -406,18 +406,18 @@ func runPrune(t *testing.T, run *emit.Run, n int) {
 				}
 			}
 			if !in {
-				run.Violate("C13:prune-jailed-outsider", fmt.Sprintf("pruning asked to jail %d, not a snapshot validator", c), rep)
+				violate(run, "C13:prune-jailed-outsider", fmt.Sprintf("pruning asked to jail %d, not a snapshot validator", c), rep)
 			}
 			if submitted[c] {
-				run.Violate("C13:prune-jailed-evidence-supplier", fmt.Sprintf("pruning asked to jail %d although it supplied evidence", c), rep)
+				violate(run, "C13:prune-jailed-evidence-supplier", fmt.Sprintf("pruning asked to jail %d although it supplied evidence", c), rep)
 			}
 		}
 		if len(vs.calls) > 0 {
 			if !public && !errd {
-				run.Violate("C13:prune-jailed-on-undelivered", "pruning an undelivered message jailed validators", rep)
+				violate(run, "C13:prune-jailed-on-undelivered", "pruning an undelivered message jailed validators", rep)
 			}
 			if new(big.Int).Mul(votes, big.NewInt(10)).Cmp(tot) < 0 {
-				run.Violate("C13:prune-jailed-below-floor", "validators jailed although fewer than 10% of snapshot shares attested", rep)
+				violate(run, "C13:prune-jailed-below-floor", "validators jailed although fewer than 10% of snapshot shares attested", rep)
 			}
 		}
 		cls := "jail-calls"
